@@ -109,7 +109,7 @@ class PrinterStrings:
         return None, None
 
 
-def partial_projection_rule(cx, rep, rid, files=("print/printer.rs",)):
+def partial_projection_rule(cx, rep, rid, files=("print/printer.rs", "frontend/mod.rs", "ast/json.rs", "ast/runtype.rs", "subtyping/mod.rs", "subtyping/to_schema.rs")):
     """The printer rebuilds validators from parts of IR nodes (object shapes for discriminated unions, hoisted
     constants).  A pattern over a struct-like RuntypeKind variant that takes some fields and ignores the others (`..`,
     `_`, or a binding that is never used) is a projection that silently drops a constraint: the rebuilt validator
